@@ -366,6 +366,30 @@ def enumerated_cases():
     out.append(("sh_ct1", X(ComponentTensor(br, MultiIndex((i,))), 1), True))
     out.append(("sh_ctj", S(Product(X(ComponentTensor(br, MultiIndex((i,))), j), X(B2, j)), j), True))
     out.append(("sh_prod", X(ComponentTensor(Product(n2, X(C2, i)), MultiIndex((i,))), 1), True))
+    # a tensor valued variable reached at transposed components under the same index values
+    M22, N22 = uflgen.coef((2, 2)), uflgen.coef((2, 2))
+    F = ufl.variable(M22)
+    G = ufl.variable(Sum(M22, N22))
+    out.append(("vt_fixed", Sum(X(F, 0, 1), Product(IntValue(-1), X(F, 1, 0))), True))
+    out.append(("vt_free", S(S(Product(X(F, i, j), X(F, j, i)), j), i), True))
+    out.append(("vt_det", Sum(Product(X(G, 0, 0), X(G, 1, 1)), Product(IntValue(-1), Product(X(G, 0, 1), X(G, 1, 0)))), True))
+    out.append(("vt_mixed", S(S(Product(X(G, i, j), X(N22, i, j)), j), i), True))
+    # a component tensor accessed with the index object that is bound again inside its body:
+    # by an inner sum / by an inner un-indexed component tensor under a Conditional or ListTensor
+    a2, b2 = uflgen.coef((2,)), uflgen.coef((2,))
+    p_, q_ = Index(), Index()
+    Mb = ComponentTensor(S(Product(X(M22, i, j), X(b2, j)), j), MultiIndex((i,)))
+    out.append(("cp_sum", S(Product(X(Mb, j), X(a2, j)), j), True))
+    out.append(("cp_sum_free", Product(X(Mb, j), X(a2, j)), False))
+    out.append(("cp_sum_ct", X(ComponentTensor(Product(Product(X(Mb, j), X(a2, j)), X(a2, j)), MultiIndex((j,))), 1), True))
+    row = ComponentTensor(Product(IntValue(2), X(M22, i, j)), MultiIndex((j,)))
+    col = ComponentTensor(Product(IntValue(3), X(M22, j, i)), MultiIndex((j,)))
+    for tag, W in (("cond", Conditional(LT(x, X(a2, 0)), row, col)), ("list", X(ListTensor(row, col), 1))):
+        outer = ComponentTensor(X(W, k), MultiIndex((i, k))) if tag == "cond" else \
+            ComponentTensor(Indexed(ListTensor(row, col), MultiIndex((FixedIndex(1), k))), MultiIndex((i, k)))
+        out.append((f"cp_ct_{tag}", S(S(Product(Product(X(outer, j, p_), X(a2, j)), X(b2, p_)), p_), j), True))
+        out.append((f"cp_ct_{tag}_fixed", S(Product(X(outer, j, 1), X(a2, j)), j), True))
+        out.append((f"cp_ct_{tag}_fresh", S(S(Product(Product(X(outer, q_, p_), X(a2, q_)), X(b2, p_)), p_), q_), True))
     # a Zero all of whose free indices are replaced by fixed indices (regression of the repaired
     # IndexReplacer.zero), and one of whose indices only some are
     out.append(("zf_allfixed", witness_zero(), True))
